@@ -293,3 +293,4 @@ def write_smtlib_for_checking(filename: str, exprs: typing.List[Node]):
     with open(filename, 'w') as file:
         for expr in exprs:
             __write_smtlib(file, expr)
+            file.write('\n')
